@@ -385,7 +385,7 @@ def base64_decode(val: str) -> str:
     """
     try:
         return base64.b64decode(val).decode()
-    except binascii.Error as err:
+    except (binascii.Error, ValueError) as err:
         raise FilterError("invalid base64-encoded string", token=None) from err
 
 
@@ -403,7 +403,7 @@ def base64_url_safe_decode(val: str) -> str:
     """
     try:
         return base64.urlsafe_b64decode(val).decode()
-    except binascii.Error as err:
+    except (binascii.Error, ValueError) as err:
         raise FilterError("invalid base64-encoded string", token=None) from err
 
 
